@@ -295,6 +295,9 @@ func runLoopsStream(r *Run) {
 			s.exec(r, spec)
 		}
 	}
+	if r.Shard == 0 {
+		loopsPushFamily(r)
+	}
 	maxLen := 5
 	if r.Tier == "thorough" {
 		maxLen = 7
